@@ -184,6 +184,20 @@ theorem enterSubshellT_nofault (st : FState) (h : st.sys.plan = []) (ii ks : Boo
     refine ⟨?_, b2⟩
     rw [b1, a1, hst1]
 
+theorem peekStateF_nofault (st : FState) (h : st.sys.plan = []) (c : Nat) :
+    (peekStateF st c).1.toState = (peekState st.toState c).1
+    ∧ (peekStateF st c).1.sys.plan = []
+    ∧ (peekStateF st c).2 = some (peekState st.toState c).2 := by
+  unfold peekStateF peekState GrandState.insertFromSystemIfVacantF GrandState.insertFromSystemIfVacant
+    FSys.getDisposition
+  simp only [FState.toState, Sys.getDisposition]
+  cases hg : get st.traps c with
+  | some g => simp [h]
+  | none =>
+    by_cases hc : c = 0
+    · simp [hc, h]
+    · simp [hc, h]
+
 theorem stepF_nofault (st : FState) (h : st.sys.plan = []) (op : Op) :
     (stepF st op).toState = step st.toState op ∧ (stepF st op).sys.plan = [] := by
   cases op with
@@ -209,7 +223,9 @@ theorem stepF_nofault (st : FState) (h : st.sys.plan = []) (op : Op) :
     obtain ⟨e1, e2, _⟩ := seqInternalF_nofault disableAllOps st h
     exact ⟨e1, e2⟩
   | enterSubshell ii ks => exact enterSubshellT_nofault st h ii ks
-  | peek c => exact ⟨rfl, h⟩
+  | peek c =>
+    obtain ⟨e1, e2, _⟩ := peekStateF_nofault st h c
+    exact ⟨e1, e2⟩
   | catchSignal s => exact ⟨rfl, h⟩
   | takeCaught => exact ⟨rfl, h⟩
   | takeIfCaught s => exact ⟨rfl, h⟩
